@@ -118,11 +118,126 @@ class Peer:
             return False
 
 
+class AccountingPeer(Peer):
+    """A peer that ADVERTISES limits (MAX_CONCURRENT_STREAMS, INITIAL_WINDOW_SIZE) without letting its own h2 instance
+    enforce them, and keeps its own books instead: `violations` lists every frame of the proxy that exceeds what had
+    been granted.  A lowered limit binds the proxy only once it has acknowledged the SETTINGS frame (RFC 9113 6.5.3);
+    a raised limit and every WINDOW_UPDATE may be used as soon as it was sent.  Frames are fed to h2 one at a time so
+    that the state seen at each event is the state at that frame."""
+
+    BIG = 2 ** 30
+
+    def __init__(self, client_side: bool, settings=None):
+        self.client_side = client_side
+        self.c = raw_conn(client_side)
+        adv = dict(settings or {})
+        for k, v in adv.items():
+            self.c.local_settings[k] = v
+        self.c.local_settings.acknowledge()
+        self.c.initiate_connection()
+        # what our own h2 instance enforces: nothing
+        self.c.local_settings[h2.settings.SettingCodes.MAX_CONCURRENT_STREAMS] = self.BIG
+        self.c.local_settings[h2.settings.SettingCodes.INITIAL_WINDOW_SIZE] = self.BIG
+        self.c.local_settings.acknowledge()
+        from h2.windows import WindowManager
+        self.c._inbound_flow_control_window_manager = WindowManager(self.BIG)
+        self.streams, self.order, self.terminated, self.failure, self.log = {}, [], None, None, []
+        self.auto_ack = False
+        self.violations = []
+        self.pending = [adv]                    # advertised, not yet acknowledged SETTINGS (oldest first)
+        self.maxc = None                        # binding MAX_CONCURRENT_STREAMS (None: unlimited)
+        self.iws = 65535                        # binding INITIAL_WINDOW_SIZE
+        self.iws_lenient = max(65535, adv.get(h2.settings.SettingCodes.INITIAL_WINDOW_SIZE, 0))
+        self.conn_credit = 65535
+        self.credit = {}                        # stream id -> bytes the proxy may still send
+        self.inbuf = b""
+        self.preface = not client_side
+
+    def advertise(self, settings):
+        from hyperframe.frame import SettingsFrame
+        f = SettingsFrame(0); f.settings = dict(settings)
+        self.c._data_to_send += f.serialize()
+        self.pending.append(dict(settings))
+        w = settings.get(h2.settings.SettingCodes.INITIAL_WINDOW_SIZE)
+        if w is not None and w > self.iws_lenient:
+            for sid in self.credit: self.credit[sid] += w - self.iws_lenient
+            self.iws_lenient = w
+        return True
+
+    def grant(self, n, sid=None):
+        """WINDOW_UPDATE"""
+        if not self.do(self.c.increment_flow_control_window, n, sid): return False
+        if sid is None: self.conn_credit += n
+        else: self.credit[sid] = self.credit.get(sid, self.iws_lenient) + n
+        return True
+
+    def feed(self, data: bytes):
+        if not data or self.failure: return []
+        self.inbuf += data
+        out = []
+        if self.preface:
+            if len(self.inbuf) < 24: return out
+            out += self._feed1(self.inbuf[:24]); self.inbuf = self.inbuf[24:]; self.preface = False
+        while len(self.inbuf) >= 9 and not self.failure:
+            n = int.from_bytes(self.inbuf[:3], "big")
+            if len(self.inbuf) < 9 + n: break
+            out += self._feed1(self.inbuf[:9 + n]); self.inbuf = self.inbuf[9 + n:]
+        return out
+
+    def _feed1(self, frame):
+        try:
+            evs = self.c.receive_data(frame)
+        except h2.exceptions.ProtocolError as e:
+            self.failure = f"{type(e).__name__}: {e}"
+            return []
+        for e in evs:
+            self._account(e)
+            self._event(e)
+        return evs
+
+    def _account(self, e):
+        SCODE = h2.settings.SettingCodes
+        if isinstance(e, h2.events.SettingsAcknowledged):
+            if self.pending:
+                s = self.pending.pop(0)
+                if SCODE.MAX_CONCURRENT_STREAMS in s: self.maxc = s[SCODE.MAX_CONCURRENT_STREAMS]
+                if SCODE.INITIAL_WINDOW_SIZE in s:
+                    self.iws = s[SCODE.INITIAL_WINDOW_SIZE]
+                    # the lenient bound: the largest value still allowed to the proxy
+                    new_len = max([self.iws] + [p[SCODE.INITIAL_WINDOW_SIZE] for p in self.pending if SCODE.INITIAL_WINDOW_SIZE in p])
+                    if new_len != self.iws_lenient:
+                        for sid in self.credit: self.credit[sid] += new_len - self.iws_lenient
+                        self.iws_lenient = new_len
+        elif isinstance(e, h2.events.RequestReceived):
+            self.credit[e.stream_id] = self.iws_lenient
+            limit = self.maxc
+            for p in self.pending:       # a higher limit may be used before it is acknowledged
+                v = p.get(SCODE.MAX_CONCURRENT_STREAMS)
+                if v is not None and (limit is None or v > limit): limit = v
+            if self.maxc is not None and limit is not None and self.c.open_inbound_streams > limit:
+                self.violations.append(f"stream {e.stream_id} opened as number {self.c.open_inbound_streams} while MAX_CONCURRENT_STREAMS={limit} was acknowledged")
+        elif isinstance(e, h2.events.ResponseReceived):
+            self.credit.setdefault(e.stream_id, self.iws_lenient)
+        elif isinstance(e, h2.events.DataReceived):
+            n = e.flow_controlled_length
+            self.conn_credit -= n
+            self.credit[e.stream_id] = self.credit.get(e.stream_id, self.iws_lenient) - n
+            if self.conn_credit < 0:
+                self.violations.append(f"DATA on stream {e.stream_id} exceeds the connection window by {-self.conn_credit}")
+            if self.credit[e.stream_id] < 0:
+                self.violations.append(f"DATA on stream {e.stream_id} exceeds the stream window by {-self.credit[e.stream_id]}")
+
+    def open_response_credit(self, sid):
+        """client side: a stream we opened gets the advertised window for the response"""
+        self.credit.setdefault(sid, self.iws_lenient)
+
+
 class Rig:
     """real HttpLayer in transparent mode; client side HTTP/1 or HTTP/2, upstream HTTP/1 or HTTP/2"""
 
     def __init__(self, cv=2, sv=2, stream_req=False, stream_resp=False, optkw=None, server_settings=None,
-                 client_settings=None, on_hook=None):
+                 client_settings=None, on_hook=None, peer_cls=Peer):
+        self.peer_cls = peer_cls
         ctx = make_context()
         ctx.client.alpn = b"h2" if cv == 2 else b"http/1.1"
         ctx.server.address = SERVER_ADDR
@@ -157,7 +272,7 @@ class Rig:
 
         self.w = World(HttpLayer(ctx, HTTPMode.transparent), ctx, on_hook=hook, on_connect=on_connect)
         self.w.start()
-        self.cpeer = Peer(True, client_settings) if cv == 2 else None
+        self.cpeer = peer_cls(True, client_settings) if cv == 2 else None
         self.speers = {}      # server label -> Peer (sv == 2)
         self.server_settings = server_settings
         self.pos = {}
@@ -170,7 +285,7 @@ class Rig:
 
     def speer(self, label):
         if label not in self.speers:
-            self.speers[label] = Peer(False, self.server_settings)
+            self.speers[label] = self.peer_cls(False, self.server_settings)
         return self.speers[label]
 
     def pump_out(self):
